@@ -556,6 +556,52 @@ func streamEnvAPI(o *Out, r *rand.Rand, n int, thorough bool) {
 			}
 			return err
 		}},
+		{"a binding that holds nothing (the zero Value) in an inner scope is still the NEAREST binding: Get / GetValue / Addr do not fall through to the enclosing scope or the external lookup", func(e *env.Env) interface{} {
+			_ = e.Define("a", int64(1))
+			inner := e.NewEnv()
+			_ = inner.DefineValue("a", reflect.Value{})
+			if v, err := inner.GetValue("a"); err != nil || v.IsValid() {
+				return fmt.Sprintf("nearest: GetValue from the inner scope gave (%v, %v), the enclosing binding or an error, instead of the inner binding", v, err)
+			}
+			if v, err := inner.Get("a"); err != nil || v != nil {
+				return fmt.Sprintf("nearest: Get from the inner scope gave (%v, %v)", v, err)
+			}
+			// set, delete and the listing agree with get about where the name lives
+			if err := inner.Set("a", int64(5)); err != nil {
+				return "nearest: Set: " + err.Error()
+			}
+			if v, _ := e.Get("a"); v != int64(1) {
+				return fmt.Sprintf("nearest: Set through the inner scope changed the OUTER binding to %v", v)
+			}
+			if v, _ := inner.Get("a"); v != int64(5) {
+				return fmt.Sprintf("nearest: after Set the inner scope answers %v", v)
+			}
+			return nil
+		}},
+		{"modules nested 1 to 9 deep: making another module in a scope changes nothing the scope's listing said about the modules it already held", func(e *env.Env) interface{} {
+			cur := e
+			for depth := 1; depth <= 9; depth++ {
+				next, err := cur.NewModule(fmt.Sprintf("lvl%d", depth))
+				if err != nil {
+					return "nearest: NewModule: " + err.Error()
+				}
+				cur = next
+				if _, err := cur.NewModule("x"); err != nil {
+					return "nearest: NewModule: " + err.Error()
+				}
+				before := strings.Split(strings.TrimSpace(cur.String()), "\n")
+				if _, err := cur.NewModule("y"); err != nil {
+					return "nearest: NewModule: " + err.Error()
+				}
+				after := cur.String()
+				for _, line := range before {
+					if strings.TrimSpace(line) != "" && !strings.Contains(after, line) {
+						return fmt.Sprintf("nearest: at depth %d the listing said %q about what the scope held; after another module was made in the scope it says %q", depth, line, after)
+					}
+				}
+			}
+			return nil
+		}},
 		{"a scope holding a struct value with storage of its own; Copy / DeepCopy; a store through the copy's value", func(e *env.Env) interface{} {
 			type rec struct{ A int64 }
 			_ = e.DefineValue("s", reflect.New(reflect.TypeOf(rec{})).Elem())
@@ -690,6 +736,8 @@ func streamEnvAPI(o *Out, r *rand.Rand, n int, thorough bool) {
 			} else if s, ok := r.(string); ok && strings.HasPrefix(s, "lazy: ") {
 				lazyHung = true
 				o.Fail(Failure{Oracle: "env-never-blocks", Key: "env-reentrant-lookup", Input: c.name, Detail: s})
+			} else if s, ok := r.(string); ok && strings.HasPrefix(s, "nearest: ") {
+				o.Fail(Failure{Oracle: "lookup-is-chain-of-dictionaries", Key: "env-nearest-binding-holds-nothing", Input: c.name, Detail: s})
 			} else if r == "copy shares the struct" || r == "copy lost the binding" {
 				o.Fail(Failure{Oracle: "copy-is-independent", Key: "env-copy-shares-struct", Input: c.name, Detail: fmt.Sprint(r, ": a store into the struct value bound in the copy shows in the original scope")})
 			}
